@@ -1434,6 +1434,14 @@ class Interp:
             r = self._sign_compare(name, ea, eb)
             if r is not None:
                 return r
+            # two CLOSED forms (constants built from pi, roots, trigonometric functions of constants ...): the comparison is a constant of the
+            # program and is folded, unless the two values are too close for floating point to tell them apart
+            try:
+                x, y = alg.evalnum(ea), alg.evalnum(eb)
+                if x == x and y == y and abs(x - y) > 1e-9 * max(1.0, abs(x), abs(y)):
+                    return {"Eq": False, "NotEq": True, "Lt": x < y, "LtE": x < y, "Gt": x > y, "GtE": x > y}[name]
+            except (alg.AlgError, ZeroDivisionError, OverflowError, ValueError):
+                pass
             return Guard("cmp", name, ea, eb)
         try:
             if name == "Eq":
@@ -1597,13 +1605,30 @@ class Interp:
                     return a >> b
             except ZeroDivisionError:
                 raise RaiseSig(ExcVal("ZeroDivisionError", node=node))
-        if name in ("BitAnd", "BitOr", "BitXor") and (isinstance(a, (Mask, Guard)) or isinstance(b, (Mask, Guard))
-                                                     or (isinstance(a, np.ndarray) and a.dtype == object and any(isinstance(x, (Guard, bool, np.bool_)) for x in a.flat))):
-            # boolean arrays / symbolic booleans combined with & | : the logical connectives
-            if name == "BitAnd":
-                return self.np.np_logical_and(a, b)
-            if name == "BitOr":
-                return self.np.np_logical_or(a, b)
+        if name in ("BitAnd", "BitOr", "BitXor") and (isinstance(a, (Mask, Guard, np.ndarray)) or isinstance(b, (Mask, Guard, np.ndarray))):
+            def is_boolish(v):
+                return isinstance(v, (Mask, Guard, bool, np.bool_)) or (isinstance(v, np.ndarray) and v.size and all(isinstance(x, (Guard, bool, np.bool_)) for x in v.flat))
+            if is_boolish(a) and is_boolish(b) and name != "BitXor":
+                # boolean arrays / symbolic booleans combined with & | : the logical connectives
+                return self.np.np_logical_and(a, b) if name == "BitAnd" else self.np.np_logical_or(a, b)
+            if isinstance(a, (np.ndarray, bool, int, E)) and isinstance(b, (np.ndarray, bool, int, E)):
+                aa, bb = np.broadcast_arrays(np.asarray(a, dtype=object), np.asarray(b, dtype=object))
+                out = np.empty(aa.shape, dtype=object)
+                allbool = True
+                for i in np.ndindex(*aa.shape):
+                    x, y = aa[i], bb[i]
+                    bx, by = isinstance(x, (bool, np.bool_)), isinstance(y, (bool, np.bool_))
+                    xi = int(x) if bx or isinstance(x, int) else (int(cell(x).cval()) if isinstance(cell(x), E) and cell(x).is_int() else None)
+                    yi = int(y) if by or isinstance(y, int) else (int(cell(y).cval()) if isinstance(cell(y), E) and cell(y).is_int() else None)
+                    if xi is None or yi is None:
+                        raise Unsupported(f"{name} of symbolic array cells", node)
+                    r_ = xi & yi if name == "BitAnd" else xi | yi if name == "BitOr" else xi ^ yi
+                    if bx and by:
+                        out[i] = bool(r_)
+                    else:
+                        allbool = False
+                        out[i] = lift(r_)
+                return out if out.shape else out.item()
         if isinstance(a, MaskLoad) or isinstance(b, MaskLoad):
             # elementwise arithmetic on rows selected by a data-dependent mask: operate on every row, keep the mask
             ma, mb = (a if isinstance(a, MaskLoad) else None), (b if isinstance(b, MaskLoad) else None)
@@ -1637,9 +1662,18 @@ class Interp:
                 return self.power(a, b, node)
             if name == "MatMult":
                 return self.np.matmul(a, b, node)
-            if name == "Mod":
+            if name in ("Mod", "FloorDiv"):
                 if isinstance(a, E) and isinstance(b, E) and a.is_int() and b.is_int():
-                    return int(a.cval()) % int(b.cval())
+                    return int(a.cval()) % int(b.cval()) if name == "Mod" else int(a.cval()) // int(b.cval())
+                if isinstance(a, np.ndarray) or isinstance(b, np.ndarray):
+                    aa, bb = np.broadcast_arrays(np.asarray(a, dtype=object), np.asarray(b, dtype=object))
+                    out = np.empty(aa.shape, dtype=object)
+                    for i in np.ndindex(*aa.shape):
+                        x, y = lift(cell(aa[i])), lift(cell(bb[i]))
+                        if not (x.is_int() and y.is_int()):
+                            raise Unsupported(f"{name} of symbolic array cells", node)
+                        out[i] = lift(int(x.cval()) % int(y.cval()) if name == "Mod" else int(x.cval()) // int(y.cval()))
+                    return out
         except ZeroDivisionError:
             self.emit("zerodiv", (keyof(b),), node, env)
             raise RaiseSig(ExcVal("ZeroDivisionError", node=node))
@@ -1890,7 +1924,8 @@ class Interp:
         return out
 
     def ex_GeneratorExp(self, n, env):
-        return self.ex_ListComp(n, env)
+        from .values import GenList
+        return GenList(self.ex_ListComp(n, env))
 
     def ex_SetComp(self, n, env):
         out = set()
